@@ -103,6 +103,7 @@ def cases(tier):
         yield Case("tps:n=%d" % n, {"kind": "tps", "n": n}, n >= 4)
     yield Case("tpsaxis", {"kind": "tpsaxis"})
     yield Case("storage", {"kind": "storage"})
+    yield Case("many_subaps", {"kind": "many"})
 
 
 # ----------------------------------------------------------------------------- helpers
@@ -158,6 +159,8 @@ def _dense_images(a, b):
 def evaluate(p):
     if p["kind"] == "storage":
         return _storage(p)
+    if p["kind"] == "many":
+        return _many(p)
     return {"sf": _sf, "lag0": _lag0, "sfscreen": _sfscreen, "sfscreen_lin": _sfscreen_lin,
             "tps": _tps, "tpsaxis": _tpsaxis}[p["kind"]](p)
 
@@ -550,4 +553,43 @@ def _storage(p):
         n = variants.check_storage(o, "tps_independent_of_storage", lambda a: tp.calc_slope_temporalps(a)[0], data, 1e-12,
                                    sub=name, kinds=("float32", "int64", "int32"))
         o.stat("lib_calls", n)
+    return o
+
+
+def _many(p):
+    """The definitions do not depend on how many sub-apertures / pixels there are: slope data with up to a few
+    hundred sub-apertures (counts around and beyond 128 and 256, with the signal concentrated in the LAST ones)
+    and a large non-square phase array against the reference definitions.  (Added after a seeded change averaged
+    sub-apertures in blocks of 128 with an unweighted mean of the block means.)"""
+    o = Out()
+    tp = _tps_fn()
+    sc = _sc()
+    for n in (8, 9):
+        t = numpy.arange(n)
+        for m in (127, 128, 129, 130, 200, 256, 257, 300):
+            x = 0.01 * numpy.cos(0.3 * numpy.outer(t, numpy.arange(m)) % 7.0)
+            x[:, -2:] += 5.0 * numpy.cos(2 * math.pi * 2 * t / n)[:, None]      # strong signal in the last two
+            got = numpy.asarray(tp.calc_slope_temporalps(x.copy())[0], dtype=float)
+            want = est.temporal_power_spectrum(x)
+            o.stat("lib_calls", 1)
+            scale = max(1e-300, float(numpy.max(numpy.abs(want))))
+            ok = got.shape == want.shape
+            o.close("tps_definition_many_subapertures", _nanmax(numpy.abs(got - want)) / scale if ok else float("inf"),
+                    TOL, sub="n=%d:subaps=%d" % (n, m))
+    i, j = numpy.indices((130, 70))
+    ph = numpy.sin(0.07 * i * i % 5.0) + 0.01 * j * i
+    for nb, st in ((20, 1), (10, 3), (None, None)):
+        got = numpy.asarray(sc.calculate_structure_function(ph.copy(), nb, st), dtype=float)
+        want = None
+        o.stat("lib_calls", 1)
+        if want is None:
+            # definition coded here: lag j -> mean over all pairs of rows j*step apart
+            step = 1 if st is None else st
+            nbv = ph.shape[1] / 4 if nb is None else nb
+            xm = int(min(nbv, ph.shape[1] / step - 1))
+            want = numpy.array([0.0] + [float(numpy.mean((ph[:-k * step] - ph[k * step:]) ** 2)) for k in range(1, xm)])
+        ok = got.shape == want.shape
+        scale = max(1e-300, float(numpy.max(numpy.abs(want))))
+        o.close("sf_definition_large_array", _nanmax(numpy.abs(got - want)) / scale if ok else float("inf"), TOL,
+                sub="nb=%s:step=%s" % (nb, st))
     return o
